@@ -5,83 +5,131 @@
 (*                                                                         *)
 (* VARIABLES                                                               *)
 (*   gl     the module's four global groups, as in ir.Module: globals,     *)
-(*          aliases, ifuncs, funcs; each entry [name, id, res] with id the *)
-(*          *cached* GlobalID (ir/helper.go: 0 doubles as "not assigned")  *)
+(*          aliases, ifuncs, funcs.  An entry is a record                  *)
+(*            name, id, res   identity; id = the *cached* GlobalID         *)
+(*                            (ir/helper.go: 0 doubles as "not assigned")  *)
+(*            as, ct, va      exported fields that can be assigned after   *)
+(*                            construction: AddrSpace; the content type    *)
+(*                            (ContentType/Init of a global: 0 = i32,      *)
+(*                            1 = i64); Sig.Variadic of a function         *)
+(*            tc              the lazily cached pointer type Typ:          *)
+(*                            [set, as, ct] = not computed yet, or the     *)
+(*                            address space and content type it was        *)
+(*                            computed from (Global.Type, Func.Type)       *)
+(*            ref, snap       a global whose initialiser is another global *)
+(*                            or function (ref), and the type of that      *)
+(*                            initialiser as NewGlobalDef copied it into   *)
+(*                            ContentType at construction (snap)           *)
+(*            att             key of the metadata definition attached      *)
+(*                            (`!dbg !N`), 0 = none                        *)
 (*   fn     per function (same index as gl.funcs) its body [params,        *)
 (*          blocks]; a block is [name, id, res, insts, term]; an           *)
-(*          instruction [name, id, res], res in {"value","void","none"};   *)
-(*          a terminator the same plus k in {"none","ret","br","invoke",   *)
-(*          "callbr","catchswitch"} ("none" = not set yet)                 *)
-(*   twin   [gl, fn] of the same history with every observer call skipped  *)
-(*   out    result of the last observer that prints: [ok, why, text];      *)
-(*          ok = FALSE is the panic of the real code                       *)
+(*          instruction [name, id, res, op, ref, as, ct, tc, att] with     *)
+(*          res in {"value","void","none"} and op "plain" (add, call,      *)
+(*          store, fence), "alloca" (fields AddrSpace / ElemType, cached   *)
+(*          Typ) or "use" (a call that takes a global, a function or the   *)
+(*          function's alloca as *typed operand*, so that the text shows   *)
+(*          the operand's type); a terminator has k in {"none","ret","br", *)
+(*          "invoke","callbr","catchswitch"} ("none" = not set yet) and a  *)
+(*          successor tgt                                                  *)
+(*   md     m.MetadataDefs: sequence of [id, key]; id = MetadataID (-1 =   *)
+(*          unassigned), key = identity of the definition object           *)
+(*   twin   [gl, fn, md] of the same history with observer calls skipped   *)
+(*   out    result of the last observer that prints: [ok, why, text, ty,   *)
+(*          mdt]; ok = FALSE is the panic of the real code; text = the     *)
+(*          definition identifiers, ty = the types shown (definitions from *)
+(*          the fields, operands from the cached type), mdt = the metadata *)
+(*          IDs shown (attachments, then definitions)                      *)
 (*   parsed TRUE while the state is the one ParseText installed, touched   *)
 (*          by observers only                                              *)
-(*   lastq  with TrackQueries: the observer called last if it left gl and  *)
-(*          fn alone ("" after any other call).  A pure query is a         *)
-(*          self-loop of the object graph, so without this variable TLC    *)
+(*   lastq  with TrackQueries: the observer called last if it left the     *)
+(*          object graph alone ("" after any other call).  A pure query is *)
+(*          a self-loop of the object graph, so without this variable TLC  *)
 (*          would generate it only as the *last* call of a history; with   *)
-(*          it the histories "query, then edit, then print" are explored   *)
-(*          (the caches Typ / Successors are filled by a query and must    *)
-(*          not leak into a later print)                                   *)
+(*          it the histories "query, then edit, then print" are explored;  *)
+(*          with StickyQueries mutators keep lastq, so that any number of  *)
+(*          edits can follow the query                                     *)
 (*   hist   the calls made so far (observation only; with out hidden by    *)
 (*          VIEW so that states are identified by the object graph)        *)
 (*                                                                         *)
 (* ACTIONS  one per public API call.                                       *)
-(*   mutators   NewGlobal NewAlias NewIFunc (m.NewGlobal.. / append to the *)
-(*              slice), NewFunc(name, params), NewBlock(f, name, term)     *)
-(*              (f.NewBlock, and -- unless term is "none" -- at once the   *)
-(*              block.NewRet/NewBr/.. that gives it its terminator: two    *)
-(*              calls taken as one step, so that printable functions are   *)
-(*              not five calls deep),                                      *)
-(*              InsertInst(f, b, pos, name, res) (pos = end is the         *)
-(*              block.NewXxx append), RemoveInst(f, b, pos),               *)
-(*              SetTerm(f, b, term) (set or replace), SetName(target, nm)  *)
-(*              (name, rename, un-name: clears the cached id as            *)
-(*              LocalIdent.SetName / GlobalIdent.SetName do),              *)
-(*              Retarget(f, b, to) (assign the exported target field of a  *)
-(*              br / invoke / callbr / catchswitch to another block);      *)
-(*   observers  PrintModule  = Module.String / WriteTo: three sub-steps in *)
-(*              code order -- AssignGlobalIDs, AssignMetadataIDs (owned by *)
-(*              C17, a no-op here), then per function in slice order       *)
-(*              Func.LLString = AssignIDs + body, the body panicking at a  *)
-(*              block without terminator.  Written as the code is: when a  *)
-(*              step fails everything before it has been rewritten and     *)
-(*              stays rewritten;                                           *)
-(*              PrintFunc(f) = Func.LLString; PrintBlock(f, b) =           *)
-(*              Block.LLString (prints the cached ids, assigns nothing);   *)
-(*              QueryType, QueryIdent, QueryOperands, QuerySuccs: Type(),  *)
-(*              Ident(), Operands(), Succs() on every object.  Type() and  *)
-(*              Succs() fill the caches Typ / Successors; no print reads   *)
-(*              Successors and Typ is a function of fields that no action  *)
-(*              here changes, so in the model they leave gl and fn alone   *)
-(*              -- the replay checks exactly that of the real code;        *)
+(*   mutators   NewGlobal (global / alias / ifunc), NewGlobalRef (a global *)
+(*              initialised with an earlier global or function),           *)
+(*              NewFunc(name, params), NewBlock(f, name, term) (f.NewBlock *)
+(*              and -- unless term is "none" -- at once block.NewRet/..:   *)
+(*              two calls as one step, so that printable functions are not *)
+(*              five calls deep), InsertInst(f, b, pos, inst) (pos = end   *)
+(*              is the block.NewXxx append), RemoveInst, SetTerm (set or   *)
+(*              replace), Retarget (assign the exported target field),     *)
+(*              SetName (name, rename, un-name: clears the cached id),     *)
+(*              SetField: assign an exported field the cached type depends *)
+(*              on -- AddrSpace of a global / function / alloca,           *)
+(*              ContentType+Init of a global, ElemType of an alloca,       *)
+(*              Sig.Variadic of a function --, InsertMd(pos, id) / RemoveMd *)
+(*              on m.MetadataDefs, AttachMd(target, key) on a global or an *)
+(*              instruction;                                               *)
+(*   observers  PrintModule = Module.String / WriteTo, the sub-steps in    *)
+(*              code order and written as the code is: assignGlobalIDs     *)
+(*              (fills Typ of globals and functions, numbers),             *)
+(*              AssignMetadataIDs (Metadata!MdAssign of the C17 builder:   *)
+(*              IDs found are kept, -1 gets the smallest unused; duplicate *)
+(*              => panic), then per function Func.LLString = AssignIDs     *)
+(*              (calls Type() of every instruction) + body, the body       *)
+(*              panicking at a block without terminator; a step that fails *)
+(*              leaves everything before it rewritten.  PrintFunc(f) =     *)
+(*              Func.LLString; PrintBlock(f, b) = Block.LLString (cached   *)
+(*              ids, assigns nothing; Type() of the operands it prints);   *)
+(*              QueryType = Type() and String() of every object (fills     *)
+(*              every Typ); QueryIdent, QueryOperands, QuerySuccs.         *)
 (*   ParseText(src)  (first call only) installs what asm.Parse leaves      *)
 (*              behind: global ids numbered over all kinds in *textual*    *)
-(*              order (giveUnnamedIdentID), local ids by AssignIDs.        *)
+(*              order, local ids by AssignIDs, Typ of everything set.      *)
 (*                                                                         *)
-(* SWITCH  ValidateOnPrint = TRUE is the code as implemented (printing     *)
-(*   validates cached ids against the position: id # 0 /\ id # expected => *)
-(*   panic); FALSE is what the properties require (printing renumbers).    *)
+(* SWITCHES                                                                *)
+(*   ValidateOnPrint  TRUE = the pinned tree (printing validates cached    *)
+(*                    ids: id # 0 /\ id # expected => panic); FALSE = what *)
+(*                    the properties require and /repo now does (printing  *)
+(*                    renumbers).                                          *)
+(*   EagerType        TRUE = the code: every constructor computes Typ at   *)
+(*                    once, so no observer is ever the first to fill it;   *)
+(*                    FALSE = constructors leave Typ to the first Type()   *)
+(*                    call -- then an observer freezes the type before a   *)
+(*                    later SetField and ObserverTransparent fails (vacuity *)
+(*                    guard, IRStateLazyType.cfg).                         *)
+(*   AllocaRefresh    when InstAlloca.Type() recomputes its cached Typ:    *)
+(*                    "fields" = whenever AddrSpace or ElemType no longer  *)
+(*                    match (required: the type follows the fields, no     *)
+(*                    matter when it was asked for last); "addrspace" =    *)
+(*                    only when AddrSpace differs (as implemented since    *)
+(*                    141f39c: set AddrSpace, print, set ElemType, print   *)
+(*                    shows the old element type, the same steps with one  *)
+(*                    print the new one -- ObserverTransparent fails);     *)
+(*                    "never" = computed once.                             *)
+(*   MdVariant        "code" = AssignMetadataIDs as written (two passes);  *)
+(*                    "one-pass" = used IDs collected while numbering: a   *)
+(*                    definition inserted in front of a numbered one takes *)
+(*                    its ID and the print panics (vacuity guard).         *)
 (*                                                                         *)
 (* PROPERTIES                                                              *)
-(*   NumberingCorrect     after a successful print every unnamed value     *)
-(*                        carries its LLVM number (C08)                    *)
-(*   PrintTotalOnParsed   printing a parsed module never panics (C08)      *)
-(*   AssignIdempotent     numbering again changes nothing (C08)            *)
-(*   ObserverTransparent  print(state) = print(twin): invariant, and as an *)
-(*                        action property over every step (C14)            *)
-(*   PrintTwiceSame       a second print gives the same text (C14)         *)
-(* With ValidateOnPrint = TRUE TLC reports the C08 counterexample          *)
-(* (ParseText(<<unnamed func, unnamed global>>)) and the C14 one (print,   *)
-(* insert before an unnamed value, print); with FALSE all hold.            *)
+(*   NumberingCorrect, PrintTotalOnParsed, AssignIdempotent        (C08)   *)
+(*   ObserverTransparent  print(state) = print(twin), as invariant and as  *)
+(*                        action property over every step (C14).  The      *)
+(*                        metadata IDs are compared up to a consistent     *)
+(*                        renaming: an ID stored by a print is kept by the *)
+(*                        next one like an explicit ID (C17's law), so     *)
+(*                        print, insert a definition in front, print gives *)
+(*                        !2 !0 !1 where a single print gives !0 !1 !2 --  *)
+(*                        the same module, differently labelled.           *)
+(*                        ObserverTransparentLiteral (exact IDs) is stated *)
+(*                        too and is violated by the code as it is.        *)
+(*   PrintTwiceSame       a second print gives exactly the same (C14)      *)
 (*                                                                         *)
-(* BOUNDS  the structure bounds (MaxPerGroup .. MaxInsts) make the object  *)
-(* graph finite; MaxCalls = 0 explores it without bounding the history     *)
-(* (closed model, any number of workers).  With MaxCalls > 0 the history   *)
-(* length is bounded while VIEW hides hist: run with -workers 1 (strict    *)
-(* breadth-first search, every state is first reached by a shortest        *)
-(* history) -- the emitting runs need one worker anyway.                   *)
+(* BOUNDS  the structure bounds make the object graph finite; MaxCalls = 0 *)
+(* explores it without bounding the history (closed model, any number of   *)
+(* workers).  With MaxCalls > 0 the history length is bounded while VIEW   *)
+(* hides hist: run with -workers 1 (strict breadth-first search, every     *)
+(* state is first reached by a shortest history) -- the emitting runs need *)
+(* one worker anyway.                                                      *)
 (*                                                                         *)
 (* BINDING  IRStateEmit.cfg: the ACTION_CONSTRAINT Emit writes one NDJSON  *)
 (* line per explored transition: the history (representative prefix of the *)
@@ -94,25 +142,67 @@
 (***************************************************************************)
 EXTENDS Numbering, TLC, Json, IOUtils
 
-CONSTANTS ValidateOnPrint,   \* TRUE = as implemented, FALSE = as required
+CONSTANTS ValidateOnPrint,   \* TRUE = pinned tree, FALSE = as required
+          EagerType,         \* TRUE = constructors compute Typ (the code)
+          MdVariant,         \* "code" | "one-pass"
+          AllocaRefresh,     \* "fields" | "addrspace" | "never": when InstAlloca.Type() recomputes Typ
           MaxCalls,          \* bound on Len(hist); 0 = unbounded (structure bounds only)
-          MaxPerGroup,       \* globals / aliases / ifuncs: entries per group
+          Groups,            \* groups NewGlobal may append to: subset of {"globals","aliases","ifuncs"}
+          MaxPerGroup,       \* entries per group
           MaxFuncs, MaxParams, MaxBlocks, MaxInsts,
           NewNames,          \* names used at creation, e.g. {"", "x"}
           SetNames,          \* names used by SetName, e.g. {"", "y"}
-          InstRes,           \* subset of {"value","void","none"}
+          InstRes,           \* plain instructions: subset of {"value","void","none"}
+          InstOps,           \* further instruction kinds: subset of {"alloca","use"}
+          RefTargets,        \* typed-operand uses of: subset of {"global","func","alloca"}
+          RefGlobals,        \* TRUE: NewGlobalRef (a global initialised with a global / function)
+          FieldEdits,        \* subset of {"GlobalAddrSpace","GlobalContent","FuncAddrSpace","FuncVariadic","AllocaAddrSpace","AllocaElem"}
           TermKinds,         \* subset of {"ret","br","invoke","callbr","catchswitch"}
+          MaxMd,             \* metadata definitions (0 = none)
+          MdExplicit,        \* explicit IDs InsertMd may give besides -1 (unassigned): subset of 0..MaxMd
+          MdAttach,          \* TRUE: AttachMd
           MaxSrc,            \* ParseText: sources of at most MaxSrc definitions (0 = no ParseText)
           TrackQueries,      \* TRUE: a pure query is remembered in lastq until the next call
+          StickyQueries,     \* TRUE: ... and mutators keep it, so that several edits can follow the query
           Observers,         \* subset of {"PrintModule","PrintFunc","PrintBlock","QueryType","QueryIdent","QueryOperands","QuerySuccs"}
           EmitFile
 
-VARIABLES gl, fn, twin, out, parsed, lastq, hist
-vars == <<gl, fn, twin, out, parsed, lastq, hist>>
-View == <<gl, fn, twin, parsed, lastq>>   \* hist and out are observations
+VARIABLES gl, fn, md, twin, out, parsed, lastq, hist
+vars == <<gl, fn, md, twin, out, parsed, lastq, hist>>
+View == <<gl, fn, md, twin, parsed, lastq>>   \* hist and out are observations
+
+\* AssignMetadataIDs as specified by the C17 builder (spec/Metadata.tla, PART 1)
+MD == INSTANCE Metadata WITH MaxDefs <- 0, MaxId <- 0, Variant <- "code", Emit <- FALSE,
+                             ids <- <<>>, shape <- 0, stage <- "done"
 
 Groups3 == {"globals", "aliases", "ifuncs"}
-World == [gl |-> gl, fn |-> fn]
+World == [gl |-> gl, fn |-> fn, md |-> md]
+
+----------------------------------------------------------------------------
+(* Records *)
+
+NoTC      == [set |-> FALSE, as |-> 0, ct |-> 0]
+TC(a, c)  == [set |-> TRUE, as |-> a, ct |-> c]
+NewTC     == IF EagerType THEN TC(0, 0) ELSE NoTC      \* what a constructor leaves in Typ
+NoRef     == [t |-> "none", i |-> 0]
+Ref(t, i) == [t |-> t, i |-> i]
+
+GEnt(nm) == [name |-> nm, id |-> 0, res |-> "value", as |-> 0, ct |-> 0, va |-> FALSE,
+             tc |-> NewTC, ref |-> NoRef, snap |-> NoTC, att |-> 0]
+IInst(nm, r, op, ref) == [name |-> nm, id |-> 0, res |-> r, op |-> op, ref |-> ref,
+                          as |-> 0, ct |-> 0, tc |-> IF op = "alloca" THEN NewTC ELSE NoTC, att |-> 0]
+
+\* Global.Type / Func.Type: computed once
+FillG(e) == IF e.tc.set THEN e ELSE [e EXCEPT !.tc = TC(e.as, e.ct)]
+\* InstAlloca.Type: computed once, and again when the cached type no longer matches the fields
+\* ("addrspace": the AddrSpace only, as commit 141f39c wrote it)
+AllocaStale(i) == CASE AllocaRefresh = "fields"    -> i.tc.as # i.as \/ i.tc.ct # i.ct
+                    [] AllocaRefresh = "addrspace" -> i.tc.as # i.as
+                    [] OTHER                       -> FALSE
+FillA(i) == IF i.op = "alloca" /\ (~i.tc.set \/ AllocaStale(i)) THEN [i EXCEPT !.tc = TC(i.as, i.ct)] ELSE i
+FillSeqG(s) == [i \in 1..Len(s) |-> FillG(s[i])]
+FillSeqA(s) == [i \in 1..Len(s) |-> FillA(s[i])]
+FillBody(body) == [body EXCEPT !.blocks = [b \in 1..Len(@) |-> [@[b] EXCEPT !.insts = FillSeqA(@)]]]
 
 ----------------------------------------------------------------------------
 (* Alphabets *)
@@ -123,7 +213,9 @@ AllTerms ==
   \cup {Term(k, "", "void") : k \in {"invoke", "callbr"}}
 Terms == {t \in AllTerms : t.k \in TermKinds}
 
-NewInsts == {Inst(nm, "value") : nm \in NewNames} \cup {Inst("", r) : r \in InstRes \ {"value"}}
+PlainInsts == {IInst(nm, "value", "plain", NoRef) : nm \in NewNames}
+              \cup {IInst("", r, "plain", NoRef) : r \in InstRes \ {"value"}}
+AllocaInsts == IF "alloca" \in InstOps THEN {IInst(nm, "value", "alloca", NoRef) : nm \in NewNames} ELSE {}
 
 ParamSeqs == UNION {[1..n -> {Ent(nm) : nm \in NewNames}] : n \in 0..MaxParams}
 
@@ -132,14 +224,54 @@ Sources == UNION {[1..n -> SrcEntries] : n \in 1..MaxSrc}
 
 \* body of every function definition of a parsed source: define void @f(i32) { add ; ret }
 ParsedBody == AssignLocalIDs([params |-> <<Ent("")>>,
-                              blocks |-> <<Block("", <<Inst("", "value")>>, Term("ret", "", "none"))>>], TRUE).f
+                              blocks |-> <<Block("", <<IInst("", "value", "plain", NoRef)>>,
+                                                 Term("ret", "", "none"))>>], TRUE).f
 
 InsAt(s, p, x) == SubSeq(s, 1, p - 1) \o <<x>> \o SubSeq(s, p, Len(s))
 DelAt(s, p)    == SubSeq(s, 1, p - 1) \o SubSeq(s, p + 1, Len(s))
 
+\* the function's alloca (at most one: identity of the operand of a "use" stays fixed)
+AllocaPositions(body) == {<<b, p>> \in (1..Len(body.blocks)) \X (1..MaxInsts) :
+                            p <= Len(body.blocks[b].insts) /\ body.blocks[b].insts[p].op = "alloca"}
+HasAlloca(body) == AllocaPositions(body) # {}
+TheAlloca(body) == LET bp == CHOOSE x \in AllocaPositions(body) : TRUE IN body.blocks[bp[1]].insts[bp[2]]
+RefsIn(insts) == {insts[p].ref : p \in 1..Len(insts)} \ {NoRef}
+UsesAlloca(body) == \E b \in 1..Len(body.blocks) : Ref("alloca", 0) \in RefsIn(body.blocks[b].insts)
+
 ----------------------------------------------------------------------------
-(* Text: the identifiers a print emits, in order.  A token is [name, id]   *)
-(* with id = -1 for a named value.                                         *)
+(* Metadata definitions *)
+
+MdIdsOf(m)  == [i \in 1..Len(m) |-> m[i].id]
+MdKeys(m)   == {m[i].key : i \in 1..Len(m)}
+FreshKey(m) == CHOOSE k \in 1..(Len(m) + 1) : k \notin MdKeys(m)
+IdOfKey(m, k) == LET i == CHOOSE j \in 1..Len(m) : m[j].key = k IN m[i].id
+
+\* "one-pass": the seeded variant -- IDs in use are collected while numbering
+RECURSIVE OnePass(_, _, _)
+OnePass(s, cur, used) ==           \* [ok, ids]
+  IF s = <<>> THEN [ok |-> TRUE, ids |-> <<>>]
+  ELSE IF Head(s) = -1
+       THEN LET n == MD!NextFree(cur, used)
+                r == OnePass(Tail(s), n, used \cup {n})
+            IN [ok |-> r.ok, ids |-> <<n>> \o r.ids]
+       ELSE IF Head(s) \in used THEN [ok |-> FALSE, ids |-> s]
+            ELSE LET r == OnePass(Tail(s), cur, used \cup {Head(s)})
+                 IN [ok |-> r.ok, ids |-> <<Head(s)>> \o r.ids]
+
+\* (*Module).AssignMetadataIDs
+AssignMd(m) ==                     \* [ok, md]
+  LET r == IF MdVariant = "code" THEN MD!MdAssign(MdIdsOf(m)) ELSE OnePass(MdIdsOf(m), -1, {})
+  IN IF ~r.ok THEN [ok |-> FALSE, md |-> m]
+     ELSE [ok |-> TRUE, md |-> [i \in 1..Len(m) |-> [m[i] EXCEPT !.id = r.ids[i]]]]
+
+AttachedKeys(w) ==
+  {w.gl.globals[i].att : i \in 1..Len(w.gl.globals)}
+  \cup UNION {UNION {{w.fn[f].blocks[b].insts[p].att : p \in 1..Len(w.fn[f].blocks[b].insts)}
+                     : b \in 1..Len(w.fn[f].blocks)} : f \in 1..Len(w.fn)}
+
+----------------------------------------------------------------------------
+(* What a print shows.  text: definition identifiers ([name, id], id = -1  *)
+(* for a named value); ty: the types shown ([k, a, c]); mdt: metadata IDs. *)
 
 Tok(n) == [name |-> n.name, id |-> IF n.name = "" THEN n.id ELSE NoNum]
 Toks(s) == [i \in 1..Len(s) |-> Tok(s[i])]
@@ -150,50 +282,112 @@ RECURSIVE BlocksText(_)
 BlocksText(bs) == IF bs = <<>> THEN <<>> ELSE BlockText(Head(bs)) \o BlocksText(Tail(bs))
 FuncText(e, body) == <<Tok(e)>> \o Toks(body.params) \o BlocksText(body.blocks)
 
+B2N(x) == IF x THEN 1 ELSE 0
+Ty(k, a, c) == [k |-> k, a |-> a, c |-> c]
+\* a global definition: AddrSpace and ContentType from the fields; for a global initialised
+\* with another object the ContentType is the type copied at construction
+GlobalTy(e) == IF e.ref = NoRef THEN <<Ty("gdef", e.as, e.ct)>> ELSE <<Ty("gref", e.snap.as, e.snap.ct)>>
+FuncTy(e)   == <<Ty("fdef", e.as, B2N(e.va))>>
+\* an instruction: alloca shows its fields; a use shows the *cached* type of its operand
+InstTy(w, f, i) ==
+  CASE i.op = "alloca" -> <<Ty("adef", i.as, i.ct)>>
+    [] i.op = "use" /\ i.ref.t = "global" -> LET e == w.gl.globals[i.ref.i] IN <<Ty("guse", e.tc.as, e.tc.ct)>>
+    [] i.op = "use" /\ i.ref.t = "func"   -> LET e == w.gl.funcs[i.ref.i] IN <<Ty("fuse", e.tc.as, B2N(e.va))>>
+    [] i.op = "use" /\ i.ref.t = "alloca" -> LET a == TheAlloca(w.fn[f]) IN <<Ty("ause", a.tc.as, a.tc.ct)>>
+    [] OTHER -> <<>>
+RECURSIVE InstsTy(_, _, _)
+InstsTy(w, f, is) == IF is = <<>> THEN <<>> ELSE InstTy(w, f, Head(is)) \o InstsTy(w, f, Tail(is))
+RECURSIVE BlocksTy(_, _, _)
+BlocksTy(w, f, bs) == IF bs = <<>> THEN <<>> ELSE InstsTy(w, f, Head(bs).insts) \o BlocksTy(w, f, Tail(bs))
+RECURSIVE GlobalsTy(_)
+GlobalsTy(s) == IF s = <<>> THEN <<>> ELSE GlobalTy(Head(s)) \o GlobalsTy(Tail(s))
+
+AttOf(w, n) == IF n.att = 0 THEN <<>> ELSE <<IdOfKey(w.md, n.att)>>
+RECURSIVE SeqAtt(_, _)
+SeqAtt(w, s) == IF s = <<>> THEN <<>> ELSE AttOf(w, Head(s)) \o SeqAtt(w, Tail(s))
+RECURSIVE BlocksAtt(_, _)
+BlocksAtt(w, bs) == IF bs = <<>> THEN <<>> ELSE SeqAtt(w, Head(bs).insts) \o BlocksAtt(w, Tail(bs))
+
 MissingTerm(body) == \E b \in 1..Len(body.blocks) : body.blocks[b].term.k = "none"
 
-Ok(text)   == [ok |-> TRUE, why |-> "", text |-> text]
-Panic(why) == [ok |-> FALSE, why |-> why, text |-> <<>>]
+Ok(text, ty, mdt) == [ok |-> TRUE, why |-> "", text |-> text, ty |-> ty, mdt |-> mdt]
+Panic(why)        == [ok |-> FALSE, why |-> why, text |-> <<>>, ty |-> <<>>, mdt |-> <<>>]
 
 ----------------------------------------------------------------------------
 (* Observers as functions world -> [w, out], written as the code is.       *)
 
-\* Func.LLString: AssignIDs, then header and body
+\* printing a typed operand calls its Type(): the cache of the operand is filled
+Touch(w, f, r) ==
+  CASE r.t = "global" -> [w EXCEPT !.gl.globals[r.i] = FillG(@)]
+    [] r.t = "func"   -> [w EXCEPT !.gl.funcs[r.i] = FillG(@)]
+    [] r.t = "alloca" -> [w EXCEPT !.fn[f] = FillBody(@)]
+    [] OTHER          -> w
+RECURSIVE TouchInsts(_, _, _)
+TouchInsts(w, f, is) == IF is = <<>> THEN w ELSE TouchInsts(Touch(w, f, Head(is).ref), f, Tail(is))
+RECURSIVE TouchBlocks(_, _, _)
+TouchBlocks(w, f, bs) == IF bs = <<>> THEN w ELSE TouchBlocks(TouchInsts(w, f, Head(bs).insts), f, Tail(bs))
+
+\* Func.LLString: AssignIDs (which asks every instruction for its Type), then header and body
 PrintFuncW(w, f, validate) ==
-  LET a == AssignLocalIDs(w.fn[f], validate)
-      w1 == [w EXCEPT !.fn[f] = a.f]
+  LET a  == AssignLocalIDs(w.fn[f], validate)
+      w1 == [w EXCEPT !.fn[f] = IF a.ok THEN FillBody(a.f) ELSE a.f]
   IN IF ~a.ok THEN [w |-> w1, out |-> Panic("local-id")]
-     ELSE IF MissingTerm(a.f) THEN [w |-> w1, out |-> Panic("no-term")]
-     ELSE [w |-> w1, out |-> Ok(FuncText(w.gl.funcs[f], a.f))]
+     ELSE LET w2 == TouchBlocks(w1, f, w1.fn[f].blocks) IN
+          IF MissingTerm(a.f) THEN [w |-> w2, out |-> Panic("no-term")]
+          ELSE [w |-> w2,
+                out |-> Ok(FuncText(w2.gl.funcs[f], w2.fn[f]),
+                           FuncTy(w2.gl.funcs[f]) \o BlocksTy(w2, f, w2.fn[f].blocks),
+                           BlocksAtt(w2, w2.fn[f].blocks))]
 
 RECURSIVE PrintFuncsFrom(_, _, _, _)
-PrintFuncsFrom(w, f, validate, text) ==
-  IF f > Len(w.fn) THEN [w |-> w, out |-> Ok(text)]
+PrintFuncsFrom(w, f, validate, acc) ==
+  IF f > Len(w.fn) THEN [w |-> w, out |-> acc]
   ELSE LET r == PrintFuncW(w, f, validate) IN
        IF ~r.out.ok THEN r                       \* later functions are not reached
-       ELSE PrintFuncsFrom(r.w, f + 1, validate, text \o r.out.text)
+       ELSE PrintFuncsFrom(r.w, f + 1, validate,
+                           Ok(acc.text \o r.out.text, acc.ty \o r.out.ty, acc.mdt \o r.out.mdt))
 
 \* Module.WriteTo / String
 PrintModuleW(w, validate) ==
-  LET g == AssignGlobalIDs(w.gl, validate)                       \* sub-step 1
-      w1 == [w EXCEPT !.gl = g.gl]
+  LET \* sub-step 1: assignGlobalIDs fills Typ of globals (and, once it reaches them, functions)
+      g  == AssignGlobalIDs([w.gl EXCEPT !.globals = FillSeqG(@)], validate)
+      g1 == IF g.ok THEN [g.gl EXCEPT !.funcs = FillSeqG(@)] ELSE g.gl
+      w1 == [w EXCEPT !.gl = g1]
   IN IF ~g.ok THEN [w |-> w1, out |-> Panic("global-id")]
-     ELSE \* sub-step 2: AssignMetadataIDs -- metadata is not part of this model (C17)
-          \* sub-step 3: globals, aliases, ifuncs are written, then each function
-          PrintFuncsFrom(w1, 1, validate,
-                         Toks(g.gl.globals) \o Toks(g.gl.aliases) \o Toks(g.gl.ifuncs))
+     ELSE LET m == AssignMd(w1.md)                                  \* sub-step 2
+              w2 == [w1 EXCEPT !.md = m.md]
+          IN IF ~m.ok THEN [w |-> w2, out |-> Panic("md-id")]
+             ELSE \* sub-step 3: globals, aliases, ifuncs are written, then each function, then
+                  \* the metadata definitions (collected here in mdt after the attachments)
+                  LET r == PrintFuncsFrom(w2, 1, validate,
+                             Ok(Toks(g1.globals) \o Toks(g1.aliases) \o Toks(g1.ifuncs),
+                                GlobalsTy(g1.globals), SeqAtt(w2, g1.globals)))
+                  IN IF ~r.out.ok THEN r
+                     ELSE [w |-> r.w, out |-> [r.out EXCEPT !.mdt = @ \o MdIdsOf(r.w.md)]]
 
-\* Block.LLString: no assignment at all
+\* Block.LLString: no assignment at all; the operands it prints are asked for their type
 PrintBlockW(w, f, b) ==
-  LET blk == w.fn[f].blocks[b] IN
-  [w |-> w, out |-> IF blk.term.k = "none" THEN Panic("no-term") ELSE Ok(BlockText(blk))]
+  LET blk == w.fn[f].blocks[b]
+      w1  == TouchInsts(w, f, blk.insts)
+  IN [w |-> w1, out |-> IF blk.term.k = "none" THEN Panic("no-term")
+                        ELSE Ok(BlockText(blk), InstsTy(w1, f, blk.insts), SeqAtt(w1, blk.insts))]
+
+\* Type() and String() of every object
+QueryTypeW(w) ==
+  [w EXCEPT !.gl.globals = FillSeqG(@), !.gl.funcs = FillSeqG(@),
+            !.fn = [f \in 1..Len(@) |-> FillBody(@[f])]]
 
 ----------------------------------------------------------------------------
 (* Mutators as functions world -> world (applied to the state and to twin) *)
 
-NewGlobalW(w, g, nm) == [w EXCEPT !.gl[g] = Append(@, Ent(nm))]
-NewFuncW(w, nm, ps)  == [gl |-> [w.gl EXCEPT !.funcs = Append(@, Ent(nm))],
-                         fn |-> Append(w.fn, [params |-> ps, blocks |-> <<>>])]
+NewGlobalW(w, g, nm) == [w EXCEPT !.gl[g] = Append(@, GEnt(nm))]
+\* m.NewGlobalDef(nm, target): init.Type() is called and copied into ContentType
+NewGlobalRefW(w, nm, r) ==
+  LET w1 == Touch(w, 0, r)
+      e  == IF r.t = "global" THEN w1.gl.globals[r.i] ELSE w1.gl.funcs[r.i]
+  IN [w1 EXCEPT !.gl.globals = Append(@, [GEnt(nm) EXCEPT !.ref = r, !.snap = e.tc])]
+NewFuncW(w, nm, ps)  == [w EXCEPT !.gl.funcs = Append(@, GEnt(nm)),
+                                  !.fn = Append(@, [params |-> ps, blocks |-> <<>>])]
 \* f.NewBlock(nm), optionally followed at once by block.NewRet / NewBr / ... (t # NoTerm)
 NewBlockW(w, f, nm, t) == [w EXCEPT !.fn[f].blocks =
                              Append(@, Block(nm, <<>>, [t EXCEPT !.tgt = IF t.k = "none" THEN 0 ELSE Len(w.fn[f].blocks) + 1]))]
@@ -202,10 +396,38 @@ RemoveInstW(w, f, b, p)    == [w EXCEPT !.fn[f].blocks[b].insts = DelAt(@, p)]
 SetTermW(w, f, b, t)       == [w EXCEPT !.fn[f].blocks[b].term = [t EXCEPT !.tgt = b]]   \* successor: the block itself
 RetargetW(w, f, b, to)     == [w EXCEPT !.fn[f].blocks[b].term.tgt = to]
 
-\* SetName targets: [t, g, f, b, p]
+\* field assignments after construction; v in {0, 1}
+SetAllocaField(body, fld, v) ==
+  [body EXCEPT !.blocks = [b \in 1..Len(@) |->
+     [@[b] EXCEPT !.insts = [p \in 1..Len(@) |->
+        IF @[p].op # "alloca" THEN @[p]
+        ELSE IF fld = "AllocaAddrSpace" THEN [@[p] EXCEPT !.as = v] ELSE [@[p] EXCEPT !.ct = v]]]]]
+SetFieldW(w, fld, i, v) ==
+  CASE fld = "GlobalAddrSpace" -> [w EXCEPT !.gl.globals[i].as = v]
+    [] fld = "GlobalContent"   -> [w EXCEPT !.gl.globals[i].ct = v]
+    [] fld = "FuncAddrSpace"   -> [w EXCEPT !.gl.funcs[i].as = v]
+    [] fld = "FuncVariadic"    -> [w EXCEPT !.gl.funcs[i].va = (v = 1)]
+    [] fld \in {"AllocaAddrSpace", "AllocaElem"} -> [w EXCEPT !.fn[i] = SetAllocaField(@, fld, v)]
+FieldValue(w, fld, i) ==
+  CASE fld = "GlobalAddrSpace" -> w.gl.globals[i].as
+    [] fld = "GlobalContent"   -> w.gl.globals[i].ct
+    [] fld = "FuncAddrSpace"   -> w.gl.funcs[i].as
+    [] fld = "FuncVariadic"    -> B2N(w.gl.funcs[i].va)
+    [] fld = "AllocaAddrSpace" -> TheAlloca(w.fn[i]).as
+    [] fld = "AllocaElem"      -> TheAlloca(w.fn[i]).ct
+FieldExists(w, fld, i) ==
+  CASE fld \in {"GlobalAddrSpace"} -> i <= Len(w.gl.globals)
+    [] fld = "GlobalContent"       -> i <= Len(w.gl.globals) /\ w.gl.globals[i].ref = NoRef
+    [] fld \in {"FuncAddrSpace", "FuncVariadic"} -> i <= Len(w.gl.funcs)
+    [] fld \in {"AllocaAddrSpace", "AllocaElem"} -> i <= Len(w.fn) /\ HasAlloca(w.fn[i])
+
+InsertMdW(w, p, id)  == [w EXCEPT !.md = InsAt(@, p, [id |-> id, key |-> FreshKey(w.md)])]
+RemoveMdW(w, p)      == [w EXCEPT !.md = DelAt(@, p)]
+
+\* targets of SetName and AttachMd: [t, g, f, b, p]
 Tg(t, g, f, b, p) == [t |-> t, g |-> g, f |-> f, b |-> b, p |-> p]
 Targets(w) ==
-  {Tg("global", g, 0, 0, i) : g \in Groups3 \cup {"funcs"}, i \in 1..MaxPerGroup + MaxFuncs}
+  {Tg("global", g, 0, 0, i) : g \in Groups3 \cup {"funcs"}, i \in 1..MaxPerGroup + MaxFuncs + MaxSrc}
   \cup {Tg("param", "", f, 0, i) : f \in 1..MaxFuncs, i \in 1..MaxParams}
   \cup {Tg("block", "", f, b, 0) : f \in 1..MaxFuncs, b \in 1..MaxBlocks}
   \cup {Tg("inst", "", f, b, p) : f \in 1..MaxFuncs, b \in 1..MaxBlocks, p \in 1..MaxInsts}
@@ -216,7 +438,6 @@ Exists(w, tg) ==
     [] tg.t = "block"  -> tg.f <= Len(w.fn) /\ tg.b <= Len(w.fn[tg.f].blocks)
     [] tg.t = "inst"   -> /\ tg.f <= Len(w.fn) /\ tg.b <= Len(w.fn[tg.f].blocks)
                           /\ tg.p <= Len(w.fn[tg.f].blocks[tg.b].insts)
-                          /\ w.fn[tg.f].blocks[tg.b].insts[tg.p].res = "value"
     [] tg.t = "term"   -> /\ tg.f <= Len(w.fn) /\ tg.b <= Len(w.fn[tg.f].blocks)
                           /\ w.fn[tg.f].blocks[tg.b].term.res = "value"
 Obj(w, tg) ==
@@ -233,11 +454,18 @@ SetNameW(w, tg, nm) ==
     [] tg.t = "block"  -> [w EXCEPT !.fn[tg.f].blocks[tg.b] = Renamed(@, nm)]
     [] tg.t = "inst"   -> [w EXCEPT !.fn[tg.f].blocks[tg.b].insts[tg.p] = Renamed(@, nm)]
     [] tg.t = "term"   -> [w EXCEPT !.fn[tg.f].blocks[tg.b].term = Renamed(@, nm)]
+\* g.Metadata = {!dbg !key} / inst.Metadata = ... (key = 0: no attachment)
+AttachW(w, tg, k) ==
+  CASE tg.t = "global" -> [w EXCEPT !.gl.globals[tg.p].att = k]
+    [] tg.t = "inst"   -> [w EXCEPT !.fn[tg.f].blocks[tg.b].insts[tg.p].att = k]
 
-\* what asm.Parse installs for src
+\* what asm.Parse installs for src (every Typ is set by the translator)
+ParsedEnt(e) == [GEnt(e.name) EXCEPT !.id = e.id, !.tc = TC(0, 0)]
 ParseW(src) ==
   LET g == ParseInstall(src)
-  IN [gl |-> g, fn |-> [i \in 1..Len(g.funcs) |-> ParsedBody]]
+      x(s) == [i \in 1..Len(s) |-> ParsedEnt(s[i])]
+  IN [gl |-> [globals |-> x(g.globals), aliases |-> x(g.aliases), ifuncs |-> x(g.ifuncs), funcs |-> x(g.funcs)],
+      fn |-> [i \in 1..Len(g.funcs) |-> ParsedBody], md |-> <<>>]
 
 ----------------------------------------------------------------------------
 (* The state machine *)
@@ -246,35 +474,41 @@ Room == MaxCalls = 0 \/ Len(hist) < MaxCalls
 
 Mutate(W(_), call) ==     \* W = function world -> world
   /\ Room
-  /\ gl' = W(World).gl /\ fn' = W(World).fn
+  /\ gl' = W(World).gl /\ fn' = W(World).fn /\ md' = W(World).md
   /\ twin' = W(twin)
-  /\ parsed' = FALSE /\ lastq' = ""
+  /\ parsed' = FALSE /\ lastq' = IF StickyQueries THEN lastq ELSE ""
   /\ hist' = Append(hist, call)
   /\ UNCHANGED out
 
 Observe(r, call) ==       \* r = [w, out] for the state; the twin skips observers
   /\ Room
-  /\ gl' = r.w.gl /\ fn' = r.w.fn /\ out' = r.out
-  /\ lastq' = IF TrackQueries /\ r.w = World THEN call.op ELSE ""
+  /\ gl' = r.w.gl /\ fn' = r.w.fn /\ md' = r.w.md /\ out' = r.out
+  /\ lastq' = IF TrackQueries /\ r.w = World THEN call.op ELSE IF StickyQueries THEN lastq ELSE ""
   /\ hist' = Append(hist, call)
   /\ UNCHANGED <<twin, parsed>>
 
-Init == /\ gl = EmptyGl /\ fn = <<>> /\ twin = [gl |-> EmptyGl, fn |-> <<>>]
-        /\ out = Ok(<<>>) /\ parsed = FALSE /\ lastq = "" /\ hist = <<>>
+EmptyWorld == [gl |-> EmptyGl, fn |-> <<>>, md |-> <<>>]
+Init == /\ gl = EmptyGl /\ fn = <<>> /\ md = <<>> /\ twin = EmptyWorld
+        /\ out = Ok(<<>>, <<>>, <<>>) /\ parsed = FALSE /\ lastq = "" /\ hist = <<>>
 
 ParseText ==
   /\ hist = <<>> /\ MaxSrc > 0
   /\ \E src \in Sources :
        /\ Len(ParseInstall(src).funcs) <= MaxFuncs
        /\ LET w == ParseW(src) IN
-          /\ gl' = w.gl /\ fn' = w.fn /\ twin' = w /\ parsed' = TRUE /\ lastq' = ""
+          /\ gl' = w.gl /\ fn' = w.fn /\ md' = w.md /\ twin' = w /\ parsed' = TRUE /\ lastq' = ""
           /\ hist' = <<[op |-> "ParseText", src |-> src]>>
           /\ UNCHANGED out
 
 NewGlobalA ==
-  \E g \in Groups3, nm \in NewNames :
+  \E g \in Groups, nm \in NewNames :
     /\ Len(gl[g]) < MaxPerGroup
     /\ Mutate(LAMBDA w : NewGlobalW(w, g, nm), [op |-> "NewGlobal", g |-> g, nm |-> nm])
+NewGlobalRefA ==
+  /\ RefGlobals /\ Len(gl.globals) < MaxPerGroup
+  /\ \E nm \in NewNames, r \in {Ref("global", i) : i \in 1..Len(gl.globals)} \cup {Ref("func", i) : i \in 1..Len(gl.funcs)} :
+       /\ r.t \in RefTargets
+       /\ Mutate(LAMBDA w : NewGlobalRefW(w, nm, r), [op |-> "NewGlobalRef", nm |-> nm, rt |-> r.t, ri |-> r.i])
 NewFuncA ==
   \E nm \in NewNames, ps \in ParamSeqs :
     /\ Len(fn) < MaxFuncs
@@ -285,15 +519,26 @@ NewBlockA ==
     /\ Len(fn[f].blocks) < MaxBlocks
     /\ Mutate(LAMBDA w : NewBlockW(w, f, nm, t),
               [op |-> "NewBlock", f |-> f, nm |-> nm, k |-> t.k, tn |-> t.name, res |-> t.res])
+\* instructions that can be inserted into function f now
+UseInsts(f) ==
+  IF "use" \notin InstOps THEN {}
+  ELSE {IInst("", "void", "use", r) :
+          r \in {Ref("global", i) : i \in 1..Len(gl.globals)} \cup {Ref("func", i) : i \in 1..Len(gl.funcs)}
+                \cup (IF HasAlloca(fn[f]) THEN {Ref("alloca", 0)} ELSE {})}
+NewInstsFor(f) ==
+  PlainInsts \cup (IF HasAlloca(fn[f]) THEN {} ELSE AllocaInsts)
+  \cup {i \in UseInsts(f) : i.ref.t \in RefTargets}
 InsertInstA ==
   \E f \in 1..Len(fn) : \E b \in 1..Len(fn[f].blocks) :
-    \E p \in 1..Len(fn[f].blocks[b].insts) + 1, i \in NewInsts :
+    \E p \in 1..Len(fn[f].blocks[b].insts) + 1, i \in NewInstsFor(f) :
       /\ Len(fn[f].blocks[b].insts) < MaxInsts
       /\ Mutate(LAMBDA w : InsertInstW(w, f, b, p, i),
-                [op |-> "InsertInst", f |-> f, b |-> b, p |-> p, nm |-> i.name, res |-> i.res])
+                [op |-> "InsertInst", f |-> f, b |-> b, p |-> p, nm |-> i.name, res |-> i.res,
+                 iop |-> i.op, rt |-> i.ref.t, ri |-> i.ref.i])
 RemoveInstA ==
   \E f \in 1..Len(fn) : \E b \in 1..Len(fn[f].blocks) : \E p \in 1..Len(fn[f].blocks[b].insts) :
-    Mutate(LAMBDA w : RemoveInstW(w, f, b, p), [op |-> "RemoveInst", f |-> f, b |-> b, p |-> p])
+    /\ fn[f].blocks[b].insts[p].op = "alloca" => ~UsesAlloca(fn[f])      \* no dangling operand
+    /\ Mutate(LAMBDA w : RemoveInstW(w, f, b, p), [op |-> "RemoveInst", f |-> f, b |-> b, p |-> p])
 SetTermA ==
   \E f \in 1..Len(fn) : \E b \in 1..Len(fn[f].blocks) : \E t \in Terms :
     /\ [fn[f].blocks[b].term EXCEPT !.id = 0, !.tgt = 0] # t          \* set, or replace by a different one
@@ -307,7 +552,29 @@ RetargetA ==
 SetNameA ==
   \E tg \in Targets(World), nm \in SetNames \cup NewNames :
     /\ Exists(World, tg) /\ Obj(World, tg).name # nm
+    /\ tg.t = "inst" => Obj(World, tg).res = "value"
     /\ Mutate(LAMBDA w : SetNameW(w, tg, nm), [op |-> "SetName", tg |-> tg, nm |-> nm])
+SetFieldA ==
+  \E fld \in FieldEdits, i \in 1..(MaxPerGroup + MaxFuncs + MaxSrc), v \in {0, 1} :
+    /\ FieldExists(World, fld, i) /\ FieldValue(World, fld, i) # v
+    /\ Mutate(LAMBDA w : SetFieldW(w, fld, i, v), [op |-> "SetField", fld |-> fld, i |-> i, v |-> v])
+InsertMdA ==
+  \E p \in 1..Len(md) + 1, id \in {-1} \cup MdExplicit :
+    /\ Len(md) < MaxMd
+    /\ Mutate(LAMBDA w : InsertMdW(w, p, id), [op |-> "InsertMd", p |-> p, id |-> id])
+RemoveMdA ==
+  \E p \in 1..Len(md) :
+    /\ md[p].key \notin AttachedKeys(World)                            \* no dangling attachment
+    /\ Mutate(LAMBDA w : RemoveMdW(w, p), [op |-> "RemoveMd", p |-> p])
+AttachMdA ==
+  /\ MdAttach
+  /\ \E tg \in {t \in Targets(World) : t.t = "inst" \/ (t.t = "global" /\ t.g = "globals")},
+        k \in MdKeys(md) \cup {0} :
+       /\ Exists(World, tg) /\ Obj(World, tg).att # k
+       \* the key names a position of md: record it as the position at the time of the call
+       /\ Mutate(LAMBDA w : AttachW(w, tg, k),
+                 [op |-> "AttachMd", tg |-> tg,
+                  p |-> IF k = 0 THEN 0 ELSE CHOOSE j \in 1..Len(md) : md[j].key = k])
 
 PrintModuleA == "PrintModule" \in Observers /\
   Observe(PrintModuleW(World, ValidateOnPrint), [op |-> "PrintModule"])
@@ -316,12 +583,15 @@ PrintFuncA == "PrintFunc" \in Observers /\
 PrintBlockA == "PrintBlock" \in Observers /\
   \E f \in 1..Len(fn) : \E b \in 1..Len(fn[f].blocks) :
     Observe(PrintBlockW(World, f, b), [op |-> "PrintBlock", f |-> f, b |-> b])
-QueryA == \E q \in Observers \cap {"QueryType", "QueryIdent", "QueryOperands", "QuerySuccs"} :
+QueryTypeA == "QueryType" \in Observers /\
+  Observe([w |-> QueryTypeW(World), out |-> out], [op |-> "QueryType"])
+QueryA == \E q \in Observers \cap {"QueryIdent", "QueryOperands", "QuerySuccs"} :
     Observe([w |-> World, out |-> out], [op |-> q])
 
 Next == \/ ParseText
-        \/ NewGlobalA \/ NewFuncA \/ NewBlockA \/ InsertInstA \/ RemoveInstA \/ SetTermA \/ RetargetA \/ SetNameA
-        \/ PrintModuleA \/ PrintFuncA \/ PrintBlockA \/ QueryA
+        \/ NewGlobalA \/ NewGlobalRefA \/ NewFuncA \/ NewBlockA \/ InsertInstA \/ RemoveInstA
+        \/ SetTermA \/ RetargetA \/ SetNameA \/ SetFieldA \/ InsertMdA \/ RemoveMdA \/ AttachMdA
+        \/ PrintModuleA \/ PrintFuncA \/ PrintBlockA \/ QueryTypeA \/ QueryA
 Spec == Init /\ [][Next]_vars
 
 ----------------------------------------------------------------------------
@@ -340,24 +610,34 @@ PrintTotalOnParsed == parsed => PrintOf(World).out.ok
 AssignIdempotent ==
   /\ GlobalAssignIdempotent(gl, TRUE)
   /\ \A f \in 1..Len(fn) : LocalAssignIdempotent(fn[f], TRUE)
+
+\* metadata IDs up to a consistent renaming: every ID replaced by the position of its first occurrence
+CanonIds(s) == [i \in 1..Len(s) |-> CHOOSE j \in 1..i : s[j] = s[i] /\ \A k \in 1..(j - 1) : s[k] # s[i]]
+UpToMdRenaming(o) == [o EXCEPT !.mdt = CanonIds(@)]
+
 \* C14: a history with observers prints what the same history without them prints
-ObserverTransparent == PrintOf(World).out = PrintOf(twin).out
+ObserverTransparent == UpToMdRenaming(PrintOf(World).out) = UpToMdRenaming(PrintOf(twin).out)
 ObserverTransparentStep ==
-  [][PrintModuleW([gl |-> gl', fn |-> fn'], ValidateOnPrint).out = PrintModuleW(twin', ValidateOnPrint).out]_vars
+  [][UpToMdRenaming(PrintModuleW([gl |-> gl', fn |-> fn', md |-> md'], ValidateOnPrint).out)
+       = UpToMdRenaming(PrintModuleW(twin', ValidateOnPrint).out)]_vars
+\* the same with the exact metadata IDs: does not hold of the code (see the header)
+ObserverTransparentLiteral == PrintOf(World).out = PrintOf(twin).out
 \* C14: printing twice in a row yields identical text
 PrintTwiceSame == LET r == PrintOf(World) IN PrintOf(r.w).out = r.out
 
 \* what the property requires of the final String() of the history
-Ideal(w) == PrintModuleW(w, FALSE).out
+Ideal(w) == LET o == PrintModuleW(w, FALSE).out IN [ok |-> o.ok, why |-> o.why, text |-> o.text]
 
-TypeOK == /\ Len(fn) = Len(gl.funcs) /\ Len(twin.fn) = Len(fn)
+TypeOK == /\ Len(fn) = Len(gl.funcs) /\ Len(twin.fn) = Len(fn) /\ Len(twin.md) = Len(md)
           /\ \A g \in Groups3 : Len(gl[g]) <= MaxPerGroup + MaxSrc
+          /\ \A f \in 1..Len(fn) : Cardinality(AllocaPositions(fn[f])) <= 1
+          /\ AttachedKeys(World) \subseteq MdKeys(md) \cup {0}
 
 ----------------------------------------------------------------------------
 (* One test per explored transition (ACTION_CONSTRAINT, -workers 1).       *)
 Emit ==
   Serialize(ToJson([hist |-> hist', want |-> Ideal(twin'),
-                    model |-> PrintModuleW([gl |-> gl', fn |-> fn'], ValidateOnPrint).out.ok]) \o "\n",
+                    model |-> PrintModuleW([gl |-> gl', fn |-> fn', md |-> md'], ValidateOnPrint).out.ok]) \o "\n",
             EmitFile,
             [format |-> "TXT", charset |-> "UTF-8",
              openOptions |-> <<"WRITE", "CREATE", "APPEND">>]).exitValue = 0
